@@ -263,13 +263,24 @@ def run(ctx: Ctx) -> None:
         ctx.sample({"spec": "PoolUse", "row": sub_cases[len(sub_cases) // 2], "real_subprocess_observation": obs_sub[len(sub_cases) // 2]})
         tagged = [("table-inproc", c, o) for c, o in zip(cases, obs_in)] + [("table-subprocess", c, o) for c, o in zip(sub_cases, obs_sub)]
         bad = table.judge(ctx, "conc", "PoolUse", [{"case": c, "obs": {k: v for k, v in o.items() if k != "err"}} for _, c, o in tagged])
+        unconfirmed = []
         for idx, clauses in bad:
             level, c, o = tagged[idx]
+            if level == "table-subprocess" and any(not cl.startswith("drift:") for cl in clauses):
+                # real processes on a loaded machine: a verdict counts only if a second execution of the row repeats it
+                o2 = PW.run_table_subprocess([c])[0]
+                ctx.case(["L2-subprocess-confirm", c])
+                again = dict(table.judge(ctx, "conc", "PoolUse", [{"case": c, "obs": {k: v for k, v in o2.items() if k != "err"}}]))
+                keep = [cl for cl in clauses if cl.startswith("drift:") or cl in again.get(0, [])]
+                if len(keep) != len(clauses):
+                    unconfirmed.append({"row": c, "first": o, "second": o2, "dropped": [cl for cl in clauses if cl not in keep]})
+                clauses, o = keep, o2
             for cl in clauses:
                 if cl.startswith("drift:"):
                     ctx.drift.append({"spec": "PoolUse", "level": level, "row": c, "observed": o, "what": cl})
                 else:
                     ctx.violation(cl, _sig(cl, c["mi"], f"{c['kind']}:{c['script']}:{c['exc']}", level), {"row": c, "observed": o})
+        ctx.extra["table_subprocess_verdicts_not_confirmed_by_second_run"] = unconfirmed[:5]
         ctx.extra["table_rows"] = len(cases)
         ctx.extra["table_rows_on_real_subprocess_workers"] = len(sub_cases)
 
